@@ -210,6 +210,10 @@ namespace GeographicLib {
       C = den / (2 * scbet12 * scbet22 * dsxi);
       tphi0 = (tphi2 + tphi1)/2;
       real stol = tol0_ * fmax(real(1), fabs(tphi0));
+      // For f >= 0.8 and parallels in opposite hemispheres the plain Newton
+      // iteration can fall into a cycle around the root: halve a step that
+      // does not decrease |u|.
+      real tprev = tphi0, uprev = Math::infinity(), dtprev = 0;
       for (int i = 0;
            i < 2*numit0_ ||
              GEOGRAPHICLIB_PANIC("Convergence failure in AlbersEqualArea");
@@ -270,6 +274,12 @@ namespace GeographicLib {
           // du/dsphi0
           du = sm1 * dg - s/_qZ * (dD - dg * (A + B) - g * dAB),
           dtu = -u/du * (scphi0 * scphi02);
+        if (fabs(u) > fabs(uprev)) { // backtrack
+          dtprev /= 2; tphi0 = tprev + dtprev;
+          if (fabs(dtprev) >= stol) continue;
+          break;
+        }
+        tprev = tphi0; uprev = u; dtprev = dtu;
         tphi0 += dtu;
         if (!(fabs(dtu) >= stol))
           break;
